@@ -36,10 +36,16 @@ import (
 // ---------------------------------------------------------------------------
 // writers that never allocate
 
+// c15Unbounded is the panic value of a writer that received more bytes than
+// any correct formatter could produce for the input ("bounded": without this
+// a runaway width would simply never return; no wall clock is involved).
+type c15Unbounded struct{ limit int }
+
 type c15Capture struct {
 	buf   []byte // fixed storage; bytes beyond it are counted, not stored
 	n     int    // bytes stored
 	total int    // bytes received
+	limit int    // panic(c15Unbounded) when total exceeds it
 	calls int
 }
 
@@ -47,6 +53,9 @@ func (w *c15Capture) Write(p []byte) (int, error) {
 	w.calls++
 	w.total += len(p)
 	w.n += copy(w.buf[w.n:], p)
+	if w.total > w.limit {
+		panic(c15Unbounded{w.limit})
+	}
 	return len(p), nil
 }
 
@@ -54,13 +63,36 @@ func (w *c15Capture) reset() { w.n, w.total, w.calls = 0, 0, 0 }
 
 type c15Discard struct {
 	total int
+	limit int
 	calls int
 }
 
 func (w *c15Discard) Write(p []byte) (int, error) {
 	w.calls++
 	w.total += len(p)
+	if w.total > w.limit {
+		panic(c15Unbounded{w.limit})
+	}
 	return len(p), nil
+}
+
+// c15ArbitraryBound is a generous upper bound for the output of ANY format
+// string with ANY arguments: every directive starts at a '%' and writes at
+// most its width (< 10^6 by construction of the formats) or its argument or a
+// marker; every other format byte yields at most one marker; every argument
+// yields at most its own bytes or one marker.
+func c15ArbitraryBound(format string, args []interface{}) int {
+	b := 64 + 16*len(format) + 16*len(args)
+	b += (strings.Count(format, "%") + 1) * (1000000 + 64)
+	for _, a := range args {
+		switch v := a.(type) {
+		case string:
+			b += len(v)
+		case []byte:
+			b += len(v)
+		}
+	}
+	return b
 }
 
 // ---------------------------------------------------------------------------
@@ -925,6 +957,10 @@ func (e *c15Env) drainRing() []byte {
 
 func (e *c15Env) protect(c *vlib.Case, what string, f func()) bool {
 	if pv, st := vlib.Protect(f); pv != nil {
+		if ub, isUB := pv.(c15Unbounded); isUB {
+			c.Violation("output-unbounded", map[string]interface{}{"during": what, "desc": "the writer received more than " + strconv.Itoa(ub.limit) + " bytes, more than any correct rendering of this input; the call was aborted"})
+			return false
+		}
 		c.Violation("panic:"+vlib.PanicSite(st)+":"+vlib.PanicClass(pv),
 			map[string]interface{}{"during": what, "panic": fmt.Sprint(pv), "stack": st})
 		return false
@@ -953,9 +989,16 @@ func (e *c15Env) checkExact(c *vlib.Case, segs []c15Seg, args []interface{}, rou
 
 	// 1. bytes received by the writer
 	e.cap.reset()
+	e.cap.limit = len(exp) + 2048 // < len(e.cap.buf): whatever arrives before the abort is kept for the report
 	var w io.Writer = &e.cap
-	if !e.protect(c, "writer", func() { c15Call(route, w, format, args) }) {
-		return
+	aborted := false
+	if pv, st := vlib.Protect(func() { c15Call(route, w, format, args) }); pv != nil {
+		if _, aborted = pv.(c15Unbounded); !aborted {
+			c.Violation("panic:"+vlib.PanicSite(st)+":"+vlib.PanicClass(pv),
+				map[string]interface{}{"during": "writer", "format": strconv.Quote(format), "args": argsDesc, "panic": fmt.Sprint(pv), "stack": st})
+			return
+		}
+		// more than len(exp)+2048 bytes arrived: reported below as a mismatch
 	}
 	got := e.cap.buf[:e.cap.n]
 	for i, sp := range spans { // what this comparison covers (whatever its outcome)
@@ -990,7 +1033,8 @@ func (e *c15Env) checkExact(c *vlib.Case, segs []c15Seg, args []interface{}, rou
 		}
 		c.Violation(sig, map[string]interface{}{
 			"format": strconv.Quote(format), "args": argsDesc, "first_difference_at": at, "in": what,
-			"got_len": e.cap.total, "want_len": len(exp), "got": c15Window(got, at), "want": c15Window(exp, at)})
+			"got_len": e.cap.total, "want_len": len(exp), "got": c15Window(got, at), "want": c15Window(exp, at),
+			"call_aborted_because_output_exceeded_want_len_plus_2048": aborted})
 		return
 	}
 	for _, sp := range spans {
@@ -1041,14 +1085,14 @@ func (e *c15Env) checkArbitrary(c *vlib.Case, format string, args []interface{},
 	argsDesc := c15DescArgs(args)
 	c.Begin(map[string]interface{}{"class": "arbitrary", "format": strconv.Quote(format), "args": argsDesc, "route": route})
 	var w io.Writer = &e.dis
-	e.dis = c15Discard{}
+	e.dis = c15Discard{limit: c15ArbitraryBound(format, args)}
 	if !e.protect(c, "writer", func() { c15Call(route, w, format, args) }) {
 		return
 	}
 	run.Count("arbitrary_formats", 1)
 	run.Count("arbitrary_output_bytes", int64(e.dis.total))
 	run.Max("arbitrary_output_len", int64(e.dis.total))
-	if a := e.allocs(func() { c15Call(route, w, format, args) }); a != 0 {
+	if a := e.allocs(func() { e.dis.total = 0; c15Call(route, w, format, args) }); a != 0 {
 		c.Violation("allocates:arbitrary-format", map[string]interface{}{"format": strconv.Quote(format), "args": argsDesc, "allocs_per_call": a})
 	}
 	earlyPrintBuffer = ringBuffer{}
